@@ -182,15 +182,19 @@ def initChans {V} (r : Runner V) : Chans V :=
 def modChan {V} (cm : Chans V) (k : Key) (f : Chan V → Chan V) : Chans V :=
   cm.map (fun p => if p.1 == k then (p.1, f p.2) else p)
 
-/-- one `reportSkip([from])` on channel `k`; returns whether it became skipped
-    (pregel channels ignore skips: `pregelChannel.reportSkip` returns false) -/
+/-- one `reportSkip([from])` on channel `k`; returns whether the channel thereby *became*
+    skipped (pregel channels ignore skips: `pregelChannel.reportSkip` returns false).
+    Go appends `k` to the work list whenever `reportSkip` returns true, i.e. also when `k` was
+    skipped already; processing a key a second time changes nothing (skip states only grow) and
+    the "unknown node" error is raised the first time END is popped, so the model pushes a key
+    only when it turns skipped — same final state, same error, linear work list. -/
 def skipOne {V} (dag : Bool) (cm : Chans V) (k from_ : Key) : Chans V × Bool :=
   if !dag then (cm, false) else
   match alookup k cm with
   | none => (cm, false)
   | some c =>
-    let (c', b) := c.reportSkip dag [from_]
-    (modChan cm k (fun _ => c'), b)
+    let res := c.reportSkip dag [from_]
+    (modChan cm k (fun _ => res.1), res.2 && !c.skipped)
 
 /-- report to channel `s` that `from_` skipped it; collect `s` if it thereby became skipped -/
 def skipStep {V} (dag : Bool) (from_ : Key) (acc : Chans V × List Key) (s : Key) : Chans V × List Key :=
